@@ -24,7 +24,9 @@ Qed.
 
 Lemma sub_gather off len img : off + len <= blen img -> sub off len img = gather (nseq off len) img.
 Proof.
-  intros H. unfold sub, gather, nseq. rewrite map_map.
+  intros H. unfold sub. destruct (N.leb_spec (blen img) off) as [Hle|Hlt].
+  { assert (len = 0) by lia. subst. reflexivity. }
+  rewrite N.min_l by lia. unfold gather, nseq. rewrite map_map.
   rewrite (firstn_skipn_nth x00) by (unfold blen in H; lia).
   apply map_ext. intros i. rewrite Nat2N.id. reflexivity.
 Qed.
